@@ -1010,6 +1010,103 @@ func vfC17PostHandshakeBusy(res *vfResult, c vfC17Case) {
 	synctest.Wait()
 }
 
+// vfC17SecondPostHandshakeFlight: a first KeyUpdate needs three retransmissions before its ACK gets through; a second
+// one is then sent into silence. Every flight starts at the configured interval: the second KeyUpdate's transmissions
+// come at +0, +I, +3I (+2I without back-off), whatever the first one went through.
+func vfC17SecondPostHandshakeFlight(res *vfResult, c vfC17Case) {
+	n := vfNewNet()
+	n.stormCap = 0
+	co, so := vfC17Opts(c)
+	p, err := vfNewPair(n, co, so)
+	res.Eval(1)
+	if err != nil {
+		return
+	}
+	if ce, se := p.Handshake(time.Minute); ce != nil || se != nil || !vfIs13(p.C.Conn) {
+		res.Count("second_flight_not_applicable", 1)
+		p.Close()
+		synctest.Wait()
+
+		return
+	}
+	p.C.StartPump()
+	p.S.StartPump()
+	time.Sleep(5 * time.Second) // ticket flights are acknowledged
+	synctest.Wait()
+	target, _ := vfSideOf(p, c.Target)
+	var mu sync.Mutex
+	dark := true
+	n.SetOnSend(func(n *vfNet, w *vfWire) {
+		mu.Lock()
+		d := dark
+		mu.Unlock()
+		if w.From == target.Name && d {
+			return
+		}
+		n.Deliver(w.Dst, w.Data, vfAddrOf(w.From))
+	})
+	first := make(chan error, 1)
+	go func() {
+		ctx, cancel := context.WithTimeout(context.Background(), 64*c.Interval)
+		defer cancel()
+		first <- target.Conn.UpdateKeys(ctx, KeyUpdateOptions{})
+	}()
+	// three retransmissions (+I, +3I, +7I with back-off; +I, +2I, +3I without) go into the dark, the next one arrives
+	time.Sleep(7*c.Interval + c.Interval/2)
+	mu.Lock()
+	dark = false
+	mu.Unlock()
+	if err := <-first; err != nil {
+		res.Count("second_flight_first_update_failed", 1)
+		p.Close()
+		synctest.Wait()
+
+		return
+	}
+	time.Sleep(3 * c.Interval)
+	synctest.Wait()
+	mu.Lock()
+	dark = true
+	mu.Unlock()
+	mark := n.LogLen()
+	t0 := n.Now()
+	ctx, cancel := context.WithTimeout(context.Background(), 4*c.Interval)
+	_ = target.Conn.UpdateKeys(ctx, KeyUpdateOptions{})
+	cancel()
+	synctest.Wait()
+	var ku []time.Duration
+	for _, w := range n.LogSince(mark) {
+		if !w.Deliver && w.From == target.Name {
+			ku = append(ku, w.VTime-t0)
+		}
+	}
+	want := []time.Duration{0, c.Interval, 3 * c.Interval}
+	if !c.Backoff {
+		want = []time.Duration{0, c.Interval, 2 * c.Interval, 3 * c.Interval}
+	}
+	res.NonTrivial("second-flight/" + c.String())
+	res.Count("second_post_handshake_flights_observed", 1)
+	bad := ""
+	for i, wnt := range want {
+		if i >= len(ku) {
+			bad = fmt.Sprintf("transmission %d of the second KeyUpdate is missing (law: +%v)", i+1, wnt)
+
+			break
+		}
+		if ku[i] != wnt {
+			bad = fmt.Sprintf("transmission %d of the second KeyUpdate at +%v, the law prescribes +%v", i+1, ku[i], wnt)
+
+			break
+		}
+	}
+	if bad != "" {
+		res.Violate(fmt.Sprintf("C17:post-handshake-schedule:second-flight:%s:backoff=%v", c.Target, c.Backoff),
+			fmt.Sprintf("%s: after a first KeyUpdate that needed retransmissions, %s; datagrams seen at %v", c.String(), bad, ku), map[string]any{"case": c.String()})
+	}
+	p.Close()
+	synctest.Wait()
+}
+
 func TestVF_C17(t *testing.T) {
 	vfGetPKI()
 	res := vfNewResult("C17", "exact virtual-time schedules: for every handshake variant x role x number of datagrams received before total "+
@@ -1077,6 +1174,8 @@ func TestVF_C17(t *testing.T) {
 			if v.Cfg.Is13() || v.Cfg.SVer == "dual" || v.Cfg.SVer == "13" {
 				cases = append(cases, vfC17Case{V: v, Target: tgt, Interval: 100 * time.Millisecond, Backoff: true, Mode: "posthandshake-busy"})
 				cases = append(cases, vfC17Case{V: v, Target: tgt, Interval: 200 * time.Millisecond, Backoff: false, Mode: "posthandshake-busy"})
+				cases = append(cases, vfC17Case{V: v, Target: tgt, Interval: 100 * time.Millisecond, Backoff: true, Mode: "posthandshake-second-flight"})
+				cases = append(cases, vfC17Case{V: v, Target: tgt, Interval: 200 * time.Millisecond, Backoff: false, Mode: "posthandshake-second-flight"})
 			}
 		}
 	}
@@ -1101,6 +1200,8 @@ func TestVF_C17(t *testing.T) {
 			synctest.Test(t, func(t *testing.T) {
 				if c.Mode == "posthandshake-busy" {
 					vfC17PostHandshakeBusy(res, c)
+				} else if c.Mode == "posthandshake-second-flight" {
+					vfC17SecondPostHandshakeFlight(res, c)
 				} else if c.Mode == "persistent-loss" {
 					vfC17PersistentLoss(res, c)
 				} else if c.Mode == "hostile" {
@@ -1121,6 +1222,8 @@ func TestVF_C17(t *testing.T) {
 		switch cases[i].Mode {
 		case "posthandshake-busy":
 			vfC17PostHandshakeBusy(res, cases[i])
+		case "posthandshake-second-flight":
+			vfC17SecondPostHandshakeFlight(res, cases[i])
 		case "persistent-loss":
 			vfC17PersistentLoss(res, cases[i])
 		case "hostile":
